@@ -95,7 +95,7 @@ class C10(Check):
     reference_models = ["namespace model in checks/C10.py", "ref/refext4.py tree_digest(), htree hash-range check (independent dirhash), check()"]
 
     def budget(self, tier):
-        return {"runs": 1400, "wall_s": 80} if tier == "quick" else {"runs": 10000, "wall_s": 1500}
+        return {"runs": 1400, "wall_s": 80} if tier == "quick" else {"runs": 6000, "wall_s": 1500}
 
     def generate(self, rng, tier):
         cfg = gen_config(rng, small=True, avoid=("mmp", "bigalloc", "quota", "project", "has_journal", "orphan_file"))
@@ -318,6 +318,10 @@ class C10(Check):
             if rr.san or rr.signal or rr.timeout:
                 o.violate("abnormal|debugfs|%s" % (rr.san[0] if rr.san else "signal"), "debugfs ended abnormally during %s (%s): %s\n%s" %
                           (label, rr.brief(), where0, rr.san_text or rr.err.decode("latin1")[-400:]), skey="abnormal")
+                break
+            if b"Could not allocate" in rr.out + rr.err:
+                # the filesystem filled up: which of the remaining commands were refused is not modelled
+                o.stats["outside.filesystem_full"] += 1
                 break
             if b < nb and spec["fsck_D"][b] and "dir_index" in cfg["features"]:
                 rf, _c = e2fsck(img, ["-fyD"], wd, tag="D%d" % b, clock=clock, problems=False, keep_log=True)
